@@ -8,6 +8,7 @@ import typing as t
 from vf.gen import values as gv
 from vf.ref import rfc4515
 
+CASE_POOL = ["cn", "CN", "Cn", "objectClass", "objectclass", "OBJECTCLASS", "sAMAccountName", "samaccountname", "o", "O", "cn;lang-en", "CN;LANG-EN", "cn;Lang-En"]
 SPECIAL = b"()*\\\x00:=~<>!&| \x7f\x80\xff\n\t\r"
 FILTER_TEXTS = [b")(uid=*", b"*)(objectClass=*", b"\\", b"\\2", b"\\2a", b"*", b"**", b"(", b")", b"a)(|(b=c", b":dn:", b":=", b" ", b"  x  "]
 
@@ -55,6 +56,8 @@ def g_text_filter(r: random.Random, depth: int, fan: int = 4, hostile=True, dn_r
         return (k, tuple(kids))
     k = r.choice(["eq", "eq", "ge", "le", "approx", "present", "sub", "sub", "ext", "ext"])
     attr = gv.g_attrdesc(r)
+    if r.random() < 0.2:  # the same name in several spellings across leaves and parses (attribute descriptions are case-preserving values)
+        attr = r.choice(CASE_POOL)
     if k in ("eq", "ge", "le", "approx"):
         v = g_value(r, hostile)
         return (k, attr, v)
@@ -75,6 +78,8 @@ def g_text_filter(r: random.Random, depth: int, fan: int = 4, hostile=True, dn_r
         at = attr
     if form in ("attr-rule", "rule"):
         rule = gv.g_oid(r)
+        if r.random() < 0.1:  # rule names that merely start with the letters of the dn flag
+            rule = r.choice(["dnSubtreeMatch", "dnQualifierMatch", "dn1", "DNx", "dn-", "dnx", "Dn2"])
         if rule.lower() == "dn":  # only on purpose (below), never by chance
             rule = "dn-x"
         if r.random() < dn_rule_rate:
